@@ -332,6 +332,12 @@ func (sdbh *SemaDBHandlers) HandleInsertPoints(w http.ResponseWriter, r *http.Re
 			pointId = uuid.MustParse(point.Id)
 		}
 		pointData := models.PointAsMap{"vector": point.Vector, "metadata": point.Metadata}
+		// The collection may carry further indexes on metadata fields, created
+		// through a later API version, their values are checked like there.
+		if err := collection.IndexSchema.CheckCompatibleMap(pointData); err != nil {
+			utils.Encode(w, http.StatusBadRequest, map[string]string{"error": err.Error()})
+			return
+		}
 		binaryPointData, err := msgpack.Marshal(pointData)
 		if err != nil {
 			errMsg := fmt.Sprintf("failed to JSON encode point at index %d, please ensure all fields are JSON compatible", i)
@@ -433,6 +439,10 @@ func (sdbh *SemaDBHandlers) HandleUpdatePoints(w http.ResponseWriter, r *http.Re
 			Id: uuid.MustParse(point.Id),
 		}
 		pointData := models.PointAsMap{"vector": point.Vector, "metadata": point.Metadata}
+		if err := collection.IndexSchema.CheckCompatibleMap(pointData); err != nil {
+			utils.Encode(w, http.StatusBadRequest, map[string]string{"error": err.Error()})
+			return
+		}
 		binaryPointData, err := msgpack.Marshal(pointData)
 		if err != nil {
 			errMsg := fmt.Sprintf("failed to JSON encode %d, please ensure all fields are JSON compatible", i)
